@@ -255,12 +255,17 @@ inline int run_main(int argc, char **argv, std::vector<Prop> props) {
     }
     if (__sanitizer_set_death_callback) __sanitizer_set_death_callback(flush_stats);
     Params pr = parse_params();
-    const char *stage = getenv("VERIF_STAGE");
-    bool stage_is_prop = false;
-    if (stage) for (auto &p : props) if (p.name == stage) stage_is_prop = true;
+    // VERIF_PROPS: comma separated names or prefixes ("C01.") selecting the properties to run
+    std::vector<std::string> sel;
+    if (const char *k = getenv("VERIF_PROPS")) {
+        std::string ks = k, cur;
+        for (char c : ks + ",") { if (c == ',') { if (!cur.empty()) sel.push_back(cur); cur.clear(); } else cur += c; }
+    }
     bool all_ok = true;
     for (auto &p : props) {
-        if (stage_is_prop && p.name != stage) continue;
+        bool wanted = sel.empty();
+        for (auto &x : sel) if (p.name.compare(0, x.size(), x) == 0) wanted = true;
+        if (!wanted) continue;
         if (p.exhaustive) {
             int si, sn; shard(si, sn);
             bool ok = p.exhaustive();
